@@ -95,6 +95,10 @@ func body() {
 		}
 		fmt.Fprintf(&lp, "%s,host=%s,region=%s f=%v,i=%di,s=\"v%d\" %d\n", m, h, reg, float64(g.Intn(4096))/8, g.Intn(1000), k, ts)
 		points = append(points, loaded{m, ts})
+		if k%16 == 0 {
+			// a measurement with a different schema (field and tag names)
+			fmt.Fprintf(&lp, "disk,path=p%d used=%di %d\n", k%3, k, ts)
+		}
 	}
 	for _, d := range dbs {
 		st, b, err := c.Write(0, d.name, "", "all", "ns", []byte(lp.String()))
@@ -144,6 +148,10 @@ func body() {
 		// quick: a representative subset of statement kinds
 		stmts = []stmt{stmts[0], stmts[1], stmts[2], stmts[5], stmts[7], stmts[9], stmts[10], stmts[11]}
 	}
+	// wildcard statements ask the remote nodes for field / tag names first
+	wildcard := stmt{"select-wildcard", "SELECT * FROM cpu " + where + " AND host = 'a' AND region = 'x'", ""}
+	otherSchema := stmt{"select-wildcard-other-schema", "SELECT * FROM disk " + where, ""}
+	stmts = append(stmts, wildcard, otherSchema)
 	// Statements with several sources of one database, restricted to one shard
 	// group each: with rf2 on three nodes a group's single shard has two owners,
 	// so for every hour some coordinator owns no shard of the statement's range
@@ -300,6 +308,16 @@ func body() {
 			faultconn.Set(&faultconn.Fault{Node: tid, Mode: "delay", Delay: 4 * time.Second})
 			run(fmt.Sprintf("%s/%s/c0/delay-n1", d.name, s.kind), d, s, 0, fmt.Sprintf("delay replies of node %d past the reader timeout", tid), false, d.rf >= 2)
 			faultconn.Set(nil)
+		}
+		// a name lookup times out, then (fault gone) a lookup for a measurement
+		// with another schema goes to the same node: it must get its own answer
+		tid := c.Datas[1].ID
+		faultconn.Set(&faultconn.Fault{Node: tid, Mode: "delay", Delay: 4 * time.Second})
+		run(fmt.Sprintf("%s/%s/c0/delay-n1", d.name, wildcard.kind), d, wildcard, 0, fmt.Sprintf("delay replies of node %d past the reader timeout", tid), false, d.rf >= 2)
+		faultconn.Set(nil)
+		time.Sleep(1500 * time.Millisecond) // let the late reply arrive on whatever connection still waits for it (widens what a stale connection would hold; no verdict depends on it)
+		for k := 0; k < 3; k++ {
+			run(fmt.Sprintf("%s/%s/c0/after-timeout-n1/%d", d.name, otherSchema.kind, k), d, otherSchema, 0, fmt.Sprintf("no fault any more; an earlier reply of node %d had timed out", tid), true, true)
 		}
 	}
 
@@ -553,6 +571,8 @@ func faultClass(f string) string {
 		return "node-stopped+connection-refused"
 	case strings.HasPrefix(f, "node"):
 		return "node-stopped"
+	case strings.HasPrefix(f, "no fault any more"):
+		return "after-a-timed-out-reply"
 	}
 	return "other"
 }
